@@ -651,6 +651,11 @@ func (c *Ctx) FPBin(op string, a, b *Term) *Term {
 		}
 		return c.FPConst64(r)
 	}
+	if op == "fp.sub" && a == b && !a.Const {
+		// x - x is +0 for every finite x (round to nearest) and NaN for NaN and the infinities
+		w := a.Sort.W
+		return c.Ite(c.Or(c.FPUn("fp.isNaN", a), c.FPUn("fp.isInfinite", a)), c.fpConst(w, math.NaN()), c.fpConst(w, 0))
+	}
 	if b.Const {
 		w := a.Sort.W
 		var y float64
